@@ -164,3 +164,28 @@ pub fn sinke_handler(a: &[&str]) -> String {
     let cap: usize = a[1].parse().unwrap();
     crate::ops_types::sinke_dispatch(a[2], a[3], a[0], cap).unwrap_or_else(|| "?bad-type".into())
 }
+
+/// EWM <cap>: hand-written Encode impls nested two deep, each annotating errors with with_message, into a slice of <cap> bytes
+/// (the encoding is 12 bytes): a sink overflow stays a WRITE error however often it is annotated
+pub fn ewm_handler(a: &[&str]) -> String {
+    use minicbor::encode::{self, Encode, Encoder, Write};
+    struct Inner;
+    impl<C> Encode<C> for Inner {
+        fn encode<W: Write>(&self, e: &mut Encoder<W>, _: &mut C) -> Result<(), encode::Error<W::Error>> {
+            e.bytes(&[7u8; 10]).map_err(|e| e.with_message("inner"))?.ok()
+        }
+    }
+    struct Outer(Inner);
+    impl<C> Encode<C> for Outer {
+        fn encode<W: Write>(&self, e: &mut Encoder<W>, c: &mut C) -> Result<(), encode::Error<W::Error>> {
+            e.array(1)?.encode_with(&self.0, c).map_err(|e| e.with_message("outer"))?.ok()
+        }
+    }
+    let cap: usize = a[0].parse().unwrap();
+    let mut buf = vec![0u8; cap];
+    match minicbor::encode(Outer(Inner), &mut buf[..]) {
+        Ok(()) => with_oracle("ok".into(), if cap >= 12 { Ok(()) } else { Err("an encoding of 12 bytes fitted a smaller slice".into()) }),
+        Err(e) => with_oracle("err".into(), if e.is_write() { Ok(()) } else { Err("the sink overflow is not reported as a write error after two with_message annotations".into()) })
+    }
+}
+
